@@ -121,6 +121,13 @@ def hash_episode(rng, nkeys):
     return ep
 
 
+def aff_oracle(ep, outs):
+    o = outs[0] if outs else ""
+    f = dict(t.split("=") for t in o.split()[1:] if "=" in t)
+    bad = ["%s=%s" % (k, v) for k, v in f.items() if v != "1"]
+    return ["one client identity is served by several backends (or not at all) through the front end: %s (%s)" % (" ".join(bad), ep[0])] if bad or not o.startswith("aff ") else []
+
+
 def check(ctx):
     ctx.assumptions += [
         "hash/fnv New32a and net.SplitHostPort are modelled (validated against the stdlib on every run: `hash fnv`, address corpus)",
@@ -138,11 +145,6 @@ def check(ctx):
     aff = [["aff %s %d %d %d %d" % (st, nb, ids, pl, 40 if not ctx.thorough() else 200)]
            for st in ("ip_hash", "ip_hash_consistent") for nb, ids, pl in ((3, 1, 0), (5, 0, 0), (4, 1, 1), (2, 0, 1))]
 
-    def aff_oracle(ep, outs):
-        o = outs[0] if outs else ""
-        f = dict(t.split("=") for t in o.split()[1:] if "=" in t)
-        bad = ["%s=%s" % (k, v) for k, v in f.items() if v != "1"]
-        return ["one client identity is served by several backends (or not at all) through the front end: %s (%s)" % (" ".join(bad), ep[0])] if bad or not o.startswith("aff ") else []
     from . import c03
     C.Differential(ctx, c03.build(ctx), timeout=300).check(aff, oracle=aff_oracle, label="hash-front")
     ctx.cov["front_end_affinity_episodes"] = len(aff)
